@@ -18,7 +18,7 @@ broken translator obligation):
                `for <name | tuple of names> in <iterable>: ... [else: ...]`, `while c: ...`, `break`, `continue`,
                `yield e` (generators), `self.<EFFECT>(ints...)` as a statement (see "effects").
   expressions: int constants, names, tuples, `t[const]` on tuple-typed names, `s.start` / `s.stop` on slice-typed
-               names, `e.attr` on record-typed names (`rec:` types), + - * // % unary -, & | ^ ~ << >>, comparisons
+               names, `e.attr` on record-typed names (`rec:` types), + - * // % ** unary -, & | ^ ~ << >>, comparisons
                (also chained: `a <= b <= c`), `a if c else b`, and / or / not in conditions, min / max of two
                arguments, abs, int(e), len(list), `sum(1 for i in range(N) if c)`, `int(sqrt(e))` (see below),
                `Enum.member` of an IntEnum class of the same file or imported by `from <module of the repo> import`
@@ -59,6 +59,9 @@ broken translator obligation):
                  `(returned value, final self.a, final self.b)` - or just the final attributes for return type "none".
                  `self.prop` for a property / `self.m()` for a method `Class.m` translated earlier with the same
                  attributes (and not assigning any) is its call on the current attribute values.
+                 "obj:a,b;skip:c,d": the attributes `c`, `d` hold objects that are not modelled; the statements
+                 `self.c = ...` are dropped (and an `if` left empty by that), reading them is unsupported.
+                 A `:b` suffix (`closed:b`) declares a boolean attribute.
                * "obj:" (no attributes): `self` is only used for EFFECT calls.
   optionals  : parameter type "optint" (`int or None`) / "oslice" (a `slice` whose start, stop, step are
                `int or None`): the only uses are the tests `x is None` / `x is not None` (also `s.start is None` ...)
@@ -89,8 +92,8 @@ broken translator obligation):
 Semantics: Python ints are unbounded -> Lean `Int`; `//` = `Int.fdiv`,
 `%` = `Int.fmod` (Python's floor semantics; a ZERO divisor - Python: ZeroDivisionError - is NOT modelled: the companion
 theorems state `≠ 0` hypotheses wherever a divisor is not a non-zero literal), bit operations = Mathlib's
-two's-complement `Int.land/lor/xor/lnot`, shifts by `toNat` of the (non-negative) count (Python: ValueError for a
-negative count - not modelled, stated as hypotheses), truthiness: int `≠ 0`, list `≠ []`.
+two's-complement `Int.land/lor/xor/lnot`, shifts and `**` by `toNat` of the (non-negative) count / exponent (Python:
+ValueError for a negative shift count, a float for a negative exponent - not modelled, stated as hypotheses), truthiness: int `≠ 0`, list `≠ []`.
 """
 import ast
 import os
@@ -153,6 +156,8 @@ FUNCS = [
     # `self.scp_data_length` is a caching property (its first read may query the machine); its value is an input here
     ("rig/machine_control/machine_controller.py", "MachineController._send_ffd",
      ["obj:scp_data_length", "int", "bytes", "int"], "exc:calls:int,int,int,int,int,int,int,bytes"),
+    ("rig/machine_control/regions.py", "RegionCoreTree.__init__",
+     ["obj:base_x,base_y,scale,shift,level;skip:locally_selected,subregions", "int", "int", "int"], "none"),
 ]
 
 # module-level tables of the source, already regenerated into Lean by other translator modules
@@ -631,6 +636,8 @@ class Tr(object):
                 return "(Int.lor %s %s)" % (a, b)
             if op is ast.BitXor:
                 return "(Int.xor %s %s)" % (a, b)
+            if op is ast.Pow:
+                return "(%s ^ (%s).toNat)" % (a, b)
             if op is ast.LShift:
                 return "(%s <<< (%s).toNat)" % (a, b)
             if op is ast.RShift:
@@ -1442,12 +1449,14 @@ def translate(repo, rel, fname, ptypes, ret, done=None):
     if len(params) != len(ptypes):
         raise NotImplementedError("%s: parameters %r" % (fname, params))
     local_enums = int_enums(tree)
-    attrs, aty, types, sig, recs, lty = [], [], {}, [], {}, {}
+    attrs, aty, types, sig, recs, lty, skipped = [], [], {}, [], {}, {}, []
     for p, t in zip(params, ptypes):
         if t.startswith("obj:"):
             if p != "self" or attrs:
                 raise NotImplementedError("%s: obj parameter %s" % (fname, p))
-            spec = [x for x in t[4:].split(",") if x]
+            main, _, skip = t[4:].partition(";skip:")
+            skipped = [x for x in skip.split(",") if x]
+            spec = [x for x in main.split(",") if x]
             attrs = [x.split(":")[0] for x in spec]
             aty = ["Bool" if x.endswith(":b") else "Int" for x in spec]
             types[p] = "obj"
@@ -1507,7 +1516,7 @@ def translate(repo, rel, fname, ptypes, ret, done=None):
     else:
         tr.fn_tail = None
     # assigning state: `self.x = e` where x is ignored-typed parameter's storage (`self._parent = parent`) is dropped
-    body_stmts = [s for s in fn.body if not is_ignored_store(s, types)]
+    body_stmts = drop_skipped([s for s in fn.body if not is_ignored_store(s, types)], skipped)
     # record-typed loop variables: `for entry in entries` binds a record
     orig_for = tr.for_stmt
 
@@ -1531,6 +1540,26 @@ def tr_assigns_attr(n):
         ts = n.targets if isinstance(n, ast.Assign) else [n.target]
         return any(isinstance(t, ast.Attribute) and isinstance(t.value, ast.Name) and t.value.id == "self" for t in ts)
     return False
+
+
+def drop_skipped(stmts, skipped):
+    """remove the stores `self.<a> = ...` of attributes declared `skip:` (objects that are not modelled; reading
+    such an attribute is unsupported anyway) and `if` statements that contain nothing else"""
+    if not skipped:
+        return stmts
+    out = []
+    for s in stmts:
+        if (isinstance(s, ast.Assign) and len(s.targets) == 1 and isinstance(s.targets[0], ast.Attribute)
+                and isinstance(s.targets[0].value, ast.Name) and s.targets[0].value.id == "self"
+                and s.targets[0].attr in skipped):
+            continue
+        if isinstance(s, ast.If):
+            body, orelse = drop_skipped(s.body, skipped), drop_skipped(s.orelse, skipped)
+            if not body and not orelse:
+                continue
+            s = ast.If(test=s.test, body=body or [ast.Pass()], orelse=orelse)
+        out.append(s)
+    return out
 
 
 def is_ignored_store(s, types):
